@@ -114,7 +114,8 @@ def gen(rng):
         if 'infos-below-files-that-is-a-regular-file' in kinds and rng.random() < 0.5:
             argv = ['trash-list', '--size']
     elif reader == 'restore':
-        argv = ['trash-restore', '/'] + rng.choice([[], [], ['--sort=date'], ['--sort=path'], ['--sort=none']])
+        # (the directory asked about: everything, or a directory that some entries were trashed from and the odd ones were not)
+        argv = ['trash-restore', rng.choice(['/', '/', '/', home, home + '/w', home + '/w/sub'] + [L['work'][v_] for v_ in L['vols']])] + rng.choice([[], [], ['--sort=date'], ['--sort=path'], ['--sort=none']])
         stdin = '?'
     elif reader == 'rm':
         argv = ['trash-rm', rng.choice(['*', 'alpha', 'al*', '*a', home + '/*', '/*', '[ab]*', 'mal_*', '*.trashinfo', 'alpha.trashinfo', '*.trash*'])]
